@@ -149,7 +149,10 @@ impl Arch {
 pub const RAM_BASE: u64 = 0x0060_1000;
 const RAM_OFFS: [u64; 8] = [0, 1, 2, 4, 8, 12, 16, 24];
 
-const ARITH: [&str; 10] = ["INT_ADD", "INT_SUB", "INT_XOR", "INT_AND", "INT_OR", "INT_MULT", "INT_DIV", "INT_REM", "INT_SDIV", "INT_SREM"];
+const ARITH: [&str; 6] = ["INT_ADD", "INT_SUB", "INT_XOR", "INT_AND", "INT_OR", "INT_MULT"];
+// divisions are generated less often: the bit-serial long division of BV.tla is the most expensive
+// operation of the reference interpreters
+const DIVS: [&str; 4] = ["INT_DIV", "INT_REM", "INT_SDIV", "INT_SREM"];
 const SHIFT: [&str; 3] = ["INT_LEFT", "INT_RIGHT", "INT_SRIGHT"];
 const COMPARE: [&str; 9] = ["INT_EQUAL", "INT_NOTEQUAL", "INT_LESS", "INT_SLESS", "INT_LESSEQUAL", "INT_SLESSEQUAL", "INT_CARRY", "INT_SCARRY", "INT_SBORROW"];
 const BOOLBIN: [&str; 3] = ["BOOL_XOR", "BOOL_AND", "BOOL_OR"];
@@ -204,6 +207,13 @@ fn ramvar(addr: u64, size: u64) -> Value {
 impl<'a> BlockGen<'a> {
     pub fn new(rng: &'a mut Rng, arch: &'a Arch) -> Self {
         BlockGen { rng, arch, temps: Vec::new(), ntemp: 0, feats: BTreeSet::new(), floats: true }
+    }
+    fn arith(&mut self) -> &'static str {
+        if self.rng.chance(1, 10) {
+            *self.rng.pick(&DIVS)
+        } else {
+            *self.rng.pick(&ARITH)
+        }
     }
     fn size(&mut self) -> u64 {
         // sizes for which register views exist in both tables
@@ -339,7 +349,7 @@ impl<'a> BlockGen<'a> {
         let s = self.size();
         match self.rng.below(16) {
             0 | 1 | 2 => {
-                let m = *self.rng.pick(&ARITH);
+                let m = self.arith();
                 let (a, b) = (self.input(s, 0), self.input(s, 1));
                 vec![bin(self.output(s), m, a, b)]
             }
@@ -469,7 +479,7 @@ impl<'a> BlockGen<'a> {
                 ops.push(copy(dst.clone(), a));
             }
             1 | 2 => {
-                let m = *self.rng.pick(&ARITH);
+                let m = self.arith();
                 let (a, b) = (self.input(s, 0), self.input(s, 1));
                 ops.push(bin(dst.clone(), m, a, b));
             }
@@ -571,13 +581,13 @@ impl<'a> BlockGen<'a> {
             1 => {
                 self.feats.insert("ram_in0");
                 self.feats.insert("ram_in1");
-                let m = *self.rng.pick(&ARITH);
+                let m = self.arith();
                 let (a, b) = (self.ram(s), self.ram(s));
                 vec![bin(self.output(s), m, a, b)]
             }
             2 => {
                 self.feats.insert("ram_in1");
-                let m = *self.rng.pick(&ARITH);
+                let m = self.arith();
                 let (a, b) = (self.reg_in(s), self.ram(s));
                 vec![bin(self.output(s), m, a, b)]
             }
@@ -585,7 +595,7 @@ impl<'a> BlockGen<'a> {
                 // read-modify-write of a memory operand
                 self.feats.insert("ram_in0");
                 self.feats.insert("ram_out");
-                let m = *self.rng.pick(&ARITH);
+                let m = self.arith();
                 let a = self.ram(s);
                 let b = self.input(s, 1);
                 vec![bin(a.clone(), m, a, b)]
@@ -628,8 +638,8 @@ impl<'a> BlockGen<'a> {
     fn temp_chain(&mut self) -> Vec<Op> {
         let s = self.size();
         let t = self.new_temp(s);
-        let m1 = *self.rng.pick(&ARITH);
-        let m2 = *self.rng.pick(&ARITH);
+        let m1 = self.arith();
+        let m2 = self.arith();
         let (a, b) = (self.input(s, 0), self.input(s, 1));
         let c = self.input(s, 1);
         let first = bin(t.clone(), m1, a, b);
@@ -770,11 +780,12 @@ pub fn block_project(arch: &Arch, b: &PBlock) -> Value {
     })
 }
 
-/// Initial register files: a value for every base register (flags hold 0 or 1).
+/// Initial register files: a JSON object base register -> little-endian bytes, with a value for every
+/// base register (flags hold 0 or 1).
 pub fn inits(rng: &mut Rng, arch: &Arch, n: usize) -> Value {
     let mut all = Vec::new();
     for _ in 0..n {
-        let mut file = Vec::new();
+        let mut file = serde_json::Map::new();
         for r in arch.base_regs() {
             let bytes: Vec<u8> = if r.size == 1 {
                 vec![rng.below(2) as u8]
@@ -792,9 +803,9 @@ pub fn inits(rng: &mut Rng, arch: &Arch, n: usize) -> Value {
                     _ => (0..r.size).map(|_| rng.below(256) as u8).collect(),
                 }
             };
-            file.push(json!({"n": r.name, "v": bytes}));
+            file.insert(r.name.clone(), json!(bytes));
         }
-        all.push(Value::Array(file));
+        all.push(Value::Object(file));
     }
     Value::Array(all)
 }
